@@ -75,6 +75,11 @@ class Gen:
 
     def rand_stmts(self, c):
         r = self.r
+        if r.random() < 0.18:
+            # a transaction-ending statement followed by session-state changing ones in the SAME query
+            return [r.choice(["Commit", "Rollback"])] + [r.choice(["SetG", "Prepare", "Select"]) for _ in range(r.choice([1, 1, 2]))]
+        if r.random() < 0.08:
+            return ["Begin", r.choice(["SetG", "Prepare", "Fail"]), r.choice(["Commit", "Rollback"])]
         k = r.choice([1, 1, 1, 2, 2, 3])
         ss = []
         for _ in range(k):
@@ -156,9 +161,13 @@ class Gen:
             self.ops.append(("StmtTimeout", c, ss))
             self.uses_stmt_timeout = True
             self.leave_inner(c, "gone")
-        elif k < 1.0:
+        elif k < 0.98:
             ss = self.rand_stmts(c)
             self.ops.append(("ServerDies", c, ss))
+            self.leave_inner(c, "gone")
+        elif k < 1.0 and self.flavour != "idle":
+            ss = [s for s in self.rand_stmts(c) if s != "CopyIn"] or ["Select"]
+            self.ops.append(("WriteFail", c, ss))
             self.leave_inner(c, "gone")
 
     def after_copy(self, c, t):
@@ -168,7 +177,19 @@ class Gen:
 
 
 def directed_cases():
-    """Hand-picked sequences (regressions of repaired defects and corner cases); (ops, pool_size, session, caching)."""
+    """Hand-picked sequences (regressions of repaired defects and corner cases);
+    (ops, pool_size, session, caching, cleanup_server_connections)."""
+    base = _directed_base()
+    T, F = True, False
+    off = [
+        ([("Connect", 1, F), ("Connect", 2, F), ("Query", 1, ["Begin"]), ("BadMsg", 1), ("Query", 2, ["Select"])], 1, F, T, F),
+        ([("Connect", 1, F), ("Connect", 2, F), ("Query", 1, ["SetG"]), ("Query", 1, ["Begin"]), ("PanicMsg", 1), ("Query", 2, ["Select"])], 1, F, F, F),
+        ([("Connect", 1, F), ("Connect", 2, F), ("Query", 1, ["Prepare", "CopyIn"]), ("Drop", 1), ("Query", 2, ["Select"])], 1, F, F, F),
+    ]
+    return [c + (True,) for c in base] + off
+
+
+def _directed_base():
     T, F = True, False
     return [
         ([("Connect", 1, F), ("Connect", 2, F), ("Query", 1, ["Begin"]), ("PanicMsg", 1), ("Query", 2, ["Select"])], 1, F, F),
@@ -184,6 +205,13 @@ def directed_cases():
         ([("Connect", 1, F), ("Connect", 2, F), ("Connect", 3, F), ("Query", 1, ["Begin"]), ("Query", 2, ["Begin"]), ("Query", 3, ["Select"]), ("Query", 1, ["Commit"]), ("Query", 3, ["Select"])], 2, F, F),
         ([("Connect", 1, F), ("Connect", 2, F), ("Query", 1, ["Begin"]), ("ServerDies", 1, ["Select"]), ("Query", 2, ["Select"])], 1, F, F),
         ([("Connect", 1, F), ("Connect", 2, F), ("Query", 1, ["Begin"]), ("Query", 1, ["Fail"]), ("Query", 1, ["Select"]), ("Query", 1, ["Commit"]), ("Query", 2, ["Select"])], 1, F, F),
+        ([("Connect", 1, F), ("Connect", 2, F), ("Query", 1, ["Begin"]), ("Query", 1, ["Rollback", "SetG"]), ("Query", 2, ["Select"])], 1, F, F),
+        ([("Connect", 1, F), ("Connect", 2, F), ("Query", 1, ["Begin"]), ("Query", 1, ["Fail"]), ("Query", 1, ["Commit", "SetG"]), ("Query", 2, ["Select"])], 1, F, F),
+        ([("Connect", 1, F), ("Connect", 2, F), ("Query", 1, ["Begin"]), ("Query", 1, ["Rollback", "Prepare"]), ("Query", 2, ["Select"])], 1, F, F),
+        ([("Connect", 1, F), ("Connect", 2, F), ("StmtTimeout", 1, ["Select"]), ("Query", 2, ["Select"])], 1, F, F),
+        ([("Connect", 1, F), ("Connect", 2, F), ("Query", 1, ["Begin"]), ("StmtTimeout", 1, ["Select"]), ("Query", 2, ["Select"])], 1, F, F),
+        ([("Connect", 1, F), ("Connect", 2, F), ("WriteFail", 1, ["Select"]), ("Query", 2, ["Select"])], 1, F, F),
+        ([("Connect", 1, F), ("Connect", 2, F), ("Query", 1, ["Begin"]), ("WriteFail", 1, ["SetG", "Select"]), ("Query", 2, ["Select"])], 1, F, F),
     ]
 
 
@@ -201,7 +229,8 @@ def gen_cases(rng, count, allow_timeouts=True):
         g.ops.append(("Connect", canary, sm))
         if g.holders < ps:
             g.ops.append(("Query", canary, ["Select"]))
-        cases.append((g.ops, ps, sm, caching))
+        cc = rng.random() >= 0.15      # cleanup_server_connections (default true)
+        cases.append((g.ops, ps, sm, caching, cc))
     return cases
 
 
@@ -224,7 +253,7 @@ def coq_op(o):
 
 
 def model_observe(cases):
-    exprs = ["observe %d [%s]" % (ps, "; ".join(coq_op(o) for o in ops)) for ops, ps, sm, caching in cases]
+    exprs = ["observe %d %s [%s]" % (ps, "true" if cc else "false", "; ".join(coq_op(o) for o in ops)) for ops, ps, sm, caching, cc in cases]
     vals = vlib.coq_eval("session", "From PV Require Import Session.Model Session.Obs.\nFrom Coq Require Import List. Import ListNotations.", exprs, shard=60)
     return [vlib.parse_coq(v) for v in vals]
 
@@ -234,16 +263,19 @@ SQLTXT = {"Begin": "BEGIN", "Commit": "COMMIT", "Rollback": "ROLLBACK", "Select"
           "Fail": "SELECT 1 /*mock:error*/", "CopyIn": "COPY t FROM STDIN"}
 
 
-def scenario(ops, ps, sm, caching, inuse=None):
+def scenario(ops, ps, sm, caching, cc=True, inuse=None):
     uses_idle = any(o[0] == "IdleTimeout" for o in ops)
     general = {"connect_timeout": 300}
     if uses_idle:
         general["idle_client_in_transaction_timeout"] = 700
     toml = W.make_toml(general=general, pools={"db": {
-        "opts": {"pool_mode": "session" if sm else "transaction", "prepared_statements_cache_size": 50 if caching else 0},
+        "opts": {"pool_mode": "session" if sm else "transaction", "prepared_statements_cache_size": 50 if caching else 0,
+                 "cleanup_server_connections": bool(cc)},
         "users": [{"pool_size": ps, "statement_timeout": 300}],
         "shards": [{"servers": [["b0", "primary"]]}]}})
     steps, prep_n = [], [0]
+
+    big = [0]
 
     def sqls(c, ss, prefix=""):
         out = []
@@ -251,6 +283,13 @@ def scenario(ops, ps, sm, caching, inuse=None):
             if s == "Prepare":
                 prep_n[0] += 1
                 out.append("PREPARE p%d AS SELECT 1" % prep_n[0])
+            elif s == "Select":
+                # every third SELECT returns rows that cross pgcat's 8196-byte relay buffer
+                big[0] += 1
+                if big[0] % 3 == 0:
+                    out.append("SELECT 1 /*mock: rows=%d, size=%d*/" % ((1, 9000) if big[0] % 2 else (3, 4200)))
+                else:
+                    out.append(SQLTXT[s])
             else:
                 out.append(SQLTXT[s])
         return prefix + "; ".join(out) + " /*c%d*/" % c
@@ -296,9 +335,23 @@ def scenario(ops, ps, sm, caching, inuse=None):
             steps.append({"op": "sleep", "ms": 800})
             steps.append({"op": "recv", "c": cn, "until": "Z", "timeout_ms": 900, "label": "idle"})
         elif k == "StmtTimeout":
-            steps.append({"op": "send", "c": cn, "msgs": [{"t": "Q", "sql": sqls(c, o[2], "/*mock:hang*/ ")}]})
-            steps.append({"op": "recv", "c": cn, "until": "", "count": 0, "timeout_ms": 900, "label": "stmt_timeout"})
-            steps.append({"op": "sleep", "ms": 40})
+            gone = (len(steps) % 2 == 0)
+            if gone:
+                # the client has already gone (RST) when the statement timeout fires; the server answers later
+                steps.append({"op": "send", "c": cn, "msgs": [{"t": "Q", "sql": sqls(c, o[2], "/*mock:sleep=650*/ ")}]})
+                steps.append({"op": "sleep", "ms": 30})
+                steps.append({"op": "close", "c": cn, "rst": True})
+                steps.append({"op": "sleep", "ms": 800})
+            else:
+                steps.append({"op": "send", "c": cn, "msgs": [{"t": "Q", "sql": sqls(c, o[2], "/*mock:hang*/ ")}]})
+                steps.append({"op": "recv", "c": cn, "until": "", "count": 0, "timeout_ms": 900, "label": "stmt_timeout"})
+                steps.append({"op": "sleep", "ms": 40})
+        elif k == "WriteFail":
+            # the statements run, the client is gone (RST) when pgcat writes the reply
+            steps.append({"op": "send", "c": cn, "msgs": [{"t": "Q", "sql": sqls(c, o[2], "/*mock:sleep=150*/ ")}]})
+            steps.append({"op": "sleep", "ms": 30})
+            steps.append({"op": "close", "c": cn, "rst": True})
+            steps.append({"op": "sleep", "ms": 250})
         elif k == "ServerDies":
             steps.append({"op": "send", "c": cn, "msgs": [{"t": "Q", "sql": sqls(c, o[2], "/*mock:close*/ ")}]})
             steps.append({"op": "recv", "c": cn, "until": "", "count": 0, "timeout_ms": 900, "label": "server_dies"})
@@ -380,7 +433,7 @@ def model_conn_logs(events):
 
 def compare(case, model, res):
     """returns list of disagreement strings (empty = agree)."""
-    ops, ps, sm, caching = case
+    ops, ps, sm, caching, cc = case
     events, mconns, mclients, mon = model[:4]
     dis = []
     if "harness_error" in res or "start_error" in res:
@@ -421,7 +474,7 @@ def compare(case, model, res):
     return dis
 
 
-def monitors(res, caching):
+def monitors(res, caching, cc=True):
     """Model-free property monitors on the implementation trace. Returns (c01 violations, c02 violations)."""
     v01, v02 = [], []
     il = impl_conn_logs(res)
@@ -439,14 +492,15 @@ def monitors(res, caching):
                 if st["copy"]:
                     dirty.append("copy")
                 # the property speaks of state created OUTSIDE a transaction block (gucs_out / role_out)
+                # (with cleanup_server_connections = false the operator gave up the reset of session state)
                 g = [y for y in st.get("gucs_out", []) if y != "application_name"]
-                if g:
+                if g and cc:
                     dirty.append("gucs set outside a transaction=%s" % g)
-                if st.get("role_out"):
+                if st.get("role_out") and cc:
                     dirty.append("role=%s" % st["role"])
-                if st["sql_prepared"]:
+                if st["sql_prepared"] and cc:
                     dirty.append("sql_prepared=%s" % st["sql_prepared"])
-                if st["stmts"] and not caching:
+                if st["stmts"] and not caching and cc:
                     dirty.append("stmts=%s" % [s[0] for s in st["stmts"]])
                 if dirty and holder is not None:
                     v02.append({"conn": cid, "from": holder, "to": x["c"], "dirty": dirty, "sql": x["sql"]})
@@ -464,6 +518,7 @@ def monitors(res, caching):
                     m = re.search(r"/\*c(\d+)\*/", f["cols"][2])
                     if m and int(m.group(1)) != me:
                         v01.append({"client": me, "received_result_of": int(m.group(1)), "sql": f["cols"][2]})
+                        v02.append({"client": me, "received_unread_reply_of": int(m.group(1)), "sql": f["cols"][2]})
     # a statement that arrives inside a transaction block must be on the connection that carried the
     # same client's previous statement (the whole transaction on one server connection)
     last_conn = {}
